@@ -295,19 +295,17 @@ def evaluate(run, hexdec):
     return bad
 
 
-def model_term(run, hexfile_ok):
-    """render_cli ... (run_cli asm bin2hex defs cli_steps cwd opts fs) for this run"""
+def model_term(run):
+    """render_cli ... (run_cli asm bin2hex_fn defs cli_steps cwd opts fs) for this run: the assembler is the observed
+    in-process result of asm.assemble, bin2hex is the WRITER MODEL Model.HexWriter.bin2hex_fn (so the .hex file the model
+    run leaves is compared byte for byte with the one the real run wrote)"""
     case, exp, root = run['case'], run['exp'], run['root']
     o = case.opts
     if exp[0] == 'FAIL':
         asm_t = 'None'
     else:
         asm_t = 'Some ({}, {})'.format(fe.cbytes(exp[0]), fe.clist('({}, {})'.format(fe.cbytes(k), fe.cz(v)) for k, v in exp[1]))
-    hx = run['after']['hex']
-    if hexfile_ok and hx is not None:
-        b2h = '(fun off b => if (0 <=? off) && (off + strlen b <=? 2^32) then Some {} else None)'.format(fe.cbytes(hx))
-    else:
-        b2h = '(fun off b => None)'
+    b2h = 'bin2hex_fn'
     opts = ('{{| o_argv_ok := {}; o_version_first := {}; o_version := {}; o_verbose := {}; o_compress := {}; o_input := {}; '
             'o_include := {}; o_output := {}; o_labels := {}; o_hex := {}; o_incdefs := {} |}}').format(
         fe.cbool(o['argv_ok']), fe.cbool(o['version_first']), fe.cbool(o['version']), fe.cbool(o['verbose']), fe.cbool(o['compress']),
